@@ -19,8 +19,8 @@ package main
 //         m multipart/form-data     b malformed request line          t truncated inside the header
 // flags:  f read the body to the end / r read 2 bytes / (default) do not touch it
 //         c SetConnectionClose   h Hijack   q (with h) the hijack handler closes the hijacked conn
-//         Q (with h) the hijack handler closes the hijacked conn three times (known finding hijackconn-double-close:
-//           with KeepHijackedConns the second Close puts the object a second time, the third one panics -> token QP)
+//         Q (with h) the hijack handler closes the hijacked conn three times (regression for 4f1f5ed: before it, with
+//           KeepHijackedConns the second Close put the object a second time and the third one panicked -> token QP)
 //         x Exile   p panic   w the connection refuses every write from now on
 //
 // output: per connection  C <ctx> <panicked> ; per request that reached the handler  H <ctx> <stream|->
@@ -241,7 +241,7 @@ func ownDrainPool(p *sync.Pool) []uintptr {
 	return res
 }
 
-// replaced by the exact drain of the hook when built with the tag verifc09hook (c09own_hook.go)
+// (a variable so that an exact drain through a repository hook could be plugged in; not needed, see INTEGRATION.md)
 var ownDrainStreamsFn = ownDrainStreams
 
 // bodyStreamPool through the public API: Acquire until two objects in a row are new ones
@@ -471,7 +471,7 @@ func genC09Own(tier string, rng *Rng) {
 			one(false, false, false, true, 2, [][]string{{string(kd) + e}, {"k"}})
 		}
 	}
-	// witnesses of the known finding hijackconn-double-close (KeepHijackedConns, the user closes twice)
+	// regression witnesses for 4f1f5ed (was known finding hijackconn-double-close: KeepHijackedConns, the user closes again)
 	one(true, false, true, true, 2, [][]string{{"khQ"}, {"k"}})
 	one(true, false, true, true, 2, [][]string{{"khQ"}, {"kh"}, {"khq"}})
 	n := 300
